@@ -32,10 +32,13 @@ def load_module_path(module_path: str) -> Any:
 		return load_module(path, module)
 	except ModuleNotFoundError as e:
 		# to_fullynameはネストしたクラスを`module.Outer.Inner`と表すため、モジュールとして存在しない部分はクラスを辿って解決
-		if e.name != path or len(elems) < 3:
+		if e.name is None or not f'{path}.'.startswith(f'{e.name}.') or len(elems) < 3:
 			raise
 
-		return getattr(load_module_path(path), module)
+		try:
+			return getattr(load_module_path(path), module)
+		except (ModuleNotFoundError, AttributeError):
+			raise e
 
 
 def resolve_own_class(method: Callable) -> type:
